@@ -133,11 +133,17 @@ def decoy(seq, special):
     return "".join(s)
 
 
-def configured_sets(opts):
-    """the parameter sets a command line configures: an absent option has its documented default, a single value
-    holds for every set, several values are one per set.  None when the lists do not fit together."""
-    d = _source_defaults()
-    lists = {k: (opts[k] if opts.get(k) is not None else [d[k]]) for k in FLAG}
+def configured_sets(opts, parser_defaults=None):
+    """the parameter sets a command line configures: an absent option has the default the REAL parser gives it
+    (`parser_defaults`, recorded by run_impl from the parser's own actions; audit-3 C08-1: that the parser default
+    equals the *_DEFAULT constant of the source is pinned by the model comparison of `list`, not by the oracle;
+    without a recording the constants of the source are used), a single value holds for every set, several values
+    are one per set.  None when the lists do not fit together."""
+    d = {k: [v] for k, v in _source_defaults().items()}
+    for k, v in (parser_defaults or {}).items():
+        if k in d and v is not None:
+            d[k] = list(v) if isinstance(v, (list, tuple)) else [v]
+    lists = {k: (opts[k] if opts.get(k) is not None else d[k]) for k in FLAG}
     multi = {len(v) for v in lists.values() if len(v) != 1}
     if len(multi) > 1:
         return None
@@ -148,8 +154,18 @@ def configured_sets(opts):
         mode = "none" if g["enzyme"] == "no_enzyme" else eff_mode(g["digestion"])
         sets.append({"enzyme": g["enzyme"], "mode": mode, "min": g["min"], "max": g["max"], "mc": g["mc"],
                      "special": [] if g["special"] == "none" else list(g["special"]),
-                     "concat": not opts["contains_decoys"]})
+                     "concat": not opts["contains_decoys"], "met": True})
     return sets
+
+
+def documented(opts, known_enzymes):
+    """every explicitly given option value lies in the documented sets (modes full/semi/none, enzymes of the table,
+    non-negative integers): only then a REFUSAL of the command line (argparse exit, ValueError) contradicts C08"""
+    if any(v not in MODES for v in (opts.get("digestion") or [])):
+        return False
+    if any(v not in known_enzymes for v in (opts.get("enzyme") or [])):
+        return False
+    return all(isinstance(v, int) and v >= 0 for k in ("min", "max", "mc") for v in (opts.get(k) or []))
 
 
 def expected_per_protein(case, sets, rules, ibaq):
@@ -169,7 +185,7 @@ def expected_per_protein(case, sets, rules, ibaq):
                 if ibaq:
                     peps = spec(seq, max(6, st["min"]), min(30, st["max"]), pre, npost, post, 0, False, "full")
                 else:
-                    peps = spec(seq, max(st["min"], 1), st["max"], pre, npost, post, st["mc"], True, st["mode"])
+                    peps = spec(seq, max(st["min"], 1), st["max"], pre, npost, post, st["mc"], st.get("met", True), st["mode"])
                     if st["mode"] == "none":
                         peps = {p[:6] for p in peps}
                 want.setdefault(pid, set()).update(peps)
@@ -295,8 +311,14 @@ class P(Prop):
                 outs.append({"peptides": sorted(peps)})
             except IndexError:
                 outs.append({"err": "index_error"})
+            except ValueError:
+                if r["mode"] in MODES:
+                    raise
+                outs.append({"err": "value_error"})  # an undocumented mode string was refused (audit-3 C08-3)
         cut = [c for c in range(1, len(seq)) if digest.is_enzymatic(seq[c - 1], seq[c], pre, not_post, post)]
-        return {"runs": outs, "sites": cut, "_rec": {"rule": [list(pre), list(not_post), list(post)]}}
+        ent = getattr(digest, "ENZYME_CLEAVAGE_RULES", {}).get(case["enzyme"])
+        ent = None if not isinstance(ent, dict) else {k: list(ent.get(k, [])) for k in ("pre", "not_post", "post")}
+        return {"runs": outs, "sites": cut, "_rec": {"rule": [list(pre), list(not_post), list(post)], "table": ent}}
 
     # ------------------------------------------------------------------ model
     def model_request(self, case, impl_out):
@@ -336,7 +358,11 @@ class P(Prop):
         # then a failing input and not only a disagreement with the model
         src = _source_rules().get(case["enzyme"])
         if src is None:
-            return f"enzyme {case['enzyme']!r} was accepted although the table in the source does not list it"
+            # not in the literal: an entry added to the table programmatically (alias) is judged with the rule the
+            # imported table holds for it (audit-3 C08-7); a name in neither was accepted without a rule
+            src = impl_out["_rec"].get("table")
+        if src is None:
+            return f"enzyme {case['enzyme']!r} was accepted although the enzyme table does not list it"
         pre, not_post, post = list(src["pre"]), list(src["not_post"]), list(src["post"])
         if [pre, not_post, post] != [list(x) for x in impl_out["_rec"]["rule"]]:
             return (f"get_cleavage_sites({case['enzyme']!r}) returns {impl_out['_rec']['rule']}, the enzyme table says "
@@ -349,6 +375,8 @@ class P(Prop):
             if "err" in o:
                 if seq == "":
                     continue
+                if o["err"] == "value_error" and r["mode"] not in MODES:
+                    continue  # the property speaks of full, semi-specific and non-specific digestion only
                 return f"digestion of {seq!r} raised {o['err']}"
             mode = eff_mode(r["mode"])
             want = spec(seq, max(r["min"], 1), r["max"], pre, not_post, post, r["mc"], r["met"], mode)
@@ -557,7 +585,12 @@ class P(Prop):
             if any(x not in known for x in used):
                 return "unknown_enzyme"
             raise e
-        return {IndexError: "index_error", AttributeError: "attribute_error", ValueError: "value_error"}[type(e)]
+        if isinstance(e, SystemExit):
+            return "rejected"  # argparse refused the command line (audit-3 C08-2)
+        for t, n in ((IndexError, "index_error"), (AttributeError, "attribute_error"), (ValueError, "value_error")):
+            if isinstance(e, t):
+                return n
+        raise e
 
     def _run_config(self, case):
         from picked_group_fdr import digest
@@ -574,14 +607,38 @@ class P(Prop):
         # --- the options through the real parser, then get_digestion_params_list
         argv_opts = opt_argv(case["opts"])
 
-        def fresh():
+        import contextlib
+        import io
+
+        def parser():
             apars = argparse.ArgumentParser()
             dp.add_digestion_arguments(apars)
-            return dp.get_digestion_params_list(apars.parse_args(argv_opts))
+            return apars
+
+        def fresh():
+            with contextlib.redirect_stderr(io.StringIO()):
+                return dp.get_digestion_params_list(parser().parse_args(argv_opts))
+
+        # what the real parser gives an ABSENT option (read from its own actions, by option string)
+        defaults = {}
+        try:
+            for a in parser()._actions:
+                for k, flag in FLAG.items():
+                    if flag in a.option_strings:
+                        defaults[k] = a.default
+        except Exception:
+            defaults = {}
+        table = {}
+        try:
+            for name, ent in digest.ENZYME_CLEAVAGE_RULES.items():
+                table[name] = {k: list(ent.get(k, [])) for k in ("pre", "not_post", "post")}
+        except Exception:
+            table = {}
+        out["_rec"] = {"defaults": defaults, "table": table}
 
         try:
             out["list"] = {"params": [params_fields(p) for p in fresh()]}
-        except ValueError as e:
+        except (ValueError, SystemExit) as e:
             out["list"] = {"err": self._errname(e, case)}
         with tempfile.TemporaryDirectory(prefix="c08_") as d:
             paths = self._write_fasta(case, d)
@@ -589,12 +646,12 @@ class P(Prop):
             try:
                 res = digest.get_peptide_to_protein_map_from_params(paths, fresh())
                 out["map"] = {"proteins": self._invert(res[0] if isinstance(res, tuple) else res)}
-            except (ValueError, KeyError, IndexError) as e:
+            except (ValueError, KeyError, IndexError, SystemExit) as e:
                 out["map"] = {"err": self._errname(e, case)}
             try:
                 cnt = digest.get_num_ibaq_peptides_per_protein(paths, fresh())
                 out["ibaq"] = {"counts": {k: int(v) for k, v in cnt.items()}}
-            except (ValueError, KeyError, IndexError) as e:
+            except (ValueError, KeyError, IndexError, SystemExit) as e:
                 out["ibaq"] = {"err": self._errname(e, case)}
             # --- the command line tool, one invocation per combination of output options
             cli = []
@@ -606,8 +663,9 @@ class P(Prop):
                 old = sys.argv
                 sys.argv = argv
                 try:
-                    digest.main(argv[1:])
-                except (ValueError, KeyError, IndexError, AttributeError) as e:
+                    with contextlib.redirect_stderr(io.StringIO()):
+                        digest.main(argv[1:])
+                except (ValueError, KeyError, IndexError, AttributeError, SystemExit) as e:
                     cli.append({"err": self._errname(e, case)})
                     continue
                 finally:
@@ -674,16 +732,38 @@ class P(Prop):
 
     # ------------------------------------------------------------------ the property on the configured digestion
     def _config_oracle(self, case, out):
-        rules = _source_rules()
-        sets = configured_sets(case["opts"])
+        rec = out.get("_rec") or {}
+        # the enzyme table: the literal of the source; names the literal lacks but the imported table holds (entries
+        # added programmatically) are judged with the imported entry (audit-3 C08-7)
+        rules = dict(rec.get("table") or {})
+        rules.update(_source_rules())
+        sets = configured_sets(case["opts"], rec.get("defaults"))
         results = [("get_peptide_to_protein_map_from_params", out["map"]), ("get_num_ibaq_peptides_per_protein", out["ibaq"])]
         results += [("digest tool, outputs prosit/map/ibaq=%s" % c, r) for c, r in zip(case["combos"], out["cli"])]
-        if sets is None:  # option lists of unequal length: no configuration at all
-            bad = [w for w, r in results if r.get("err") != "value_error"]
-            return ("option lists of unequal length were accepted by " + bad[0]) if bad else None
+        if sets is None:
+            # option lists of unequal length: C08 does not say what such a command line configures (refusing, padding,
+            # truncating are all silent here; the model comparison pins the refusal — audit-3 C08-5)
+            return None
         if any(st["enzyme"] not in rules for st in sets):
             bad = [w for w, r in results if "err" not in r]
             return ("an enzyme outside the table was accepted by " + bad[0]) if bad else None
+        # a refusal (argparse exit / ValueError) of a command line with a value outside the documented sets is not
+        # judged (audit-3 C08-2/3); when the code accepts an undocumented mode string it is held to what the
+        # dispatcher of the digestion does with it (full digestion)
+        may_refuse = not documented(case["opts"], set(rules))
+
+        def refused(r):
+            return may_refuse and r.get("err") in ("rejected", "value_error")
+
+        # the methionine-cleavage setting and the database kind are taken from the real parameter objects (the
+        # property quantifies over every such setting; audit-3 C08-6)
+        real = (out.get("list") or {}).get("params")
+        if isinstance(real, list) and len(real) == len(sets):
+            for st, pr in zip(sets, real):
+                if isinstance(pr.get("met"), bool):
+                    st["met"] = pr["met"]
+                if pr.get("db") in ("concat", "target"):
+                    st["concat"] = pr["db"] == "concat"
         zero_min = any(st["min"] == 0 for st in sets)
         want = expected_per_protein(case, sets, rules, False)
         want_ibaq = {k: len(v) for k, v in expected_per_protein(case, sets, rules, True).items()}
@@ -712,20 +792,26 @@ class P(Prop):
             return None
 
         if "err" in out["map"]:
-            return "get_peptide_to_protein_map_from_params raised %s for [%s]" % (out["map"]["err"], cfg)
-        why = cmp_map("get_peptide_to_protein_map_from_params", out["map"]["proteins"])
-        if why:
-            return why
+            if not refused(out["map"]):
+                return "get_peptide_to_protein_map_from_params raised %s for [%s]" % (out["map"]["err"], cfg)
+        else:
+            why = cmp_map("get_peptide_to_protein_map_from_params", out["map"]["proteins"])
+            if why:
+                return why
         if "err" in out["ibaq"]:
-            return "get_num_ibaq_peptides_per_protein raised %s for [%s]" % (out["ibaq"]["err"], cfg)
-        why = cmp_ibaq("get_num_ibaq_peptides_per_protein", out["ibaq"]["counts"])
-        if why:
-            return why
+            if not refused(out["ibaq"]):
+                return "get_num_ibaq_peptides_per_protein raised %s for [%s]" % (out["ibaq"]["err"], cfg)
+        else:
+            why = cmp_ibaq("get_num_ibaq_peptides_per_protein", out["ibaq"]["counts"])
+            if why:
+                return why
         for (wp, wm, wi), r in zip(case["combos"], out["cli"]):
             where = "digest tool with " + " ".join(n for n, b in (("--prosit_input", wp), ("--peptide_protein_map", wm), ("--ibaq_map", wi)) if b)
             if "err" in r:
                 if r["err"] == "attribute_error" and hashed and (wp or wm):
                     continue  # the tool cannot write a hash-key (non-specific) map at all: no peptide set to judge
+                if refused(r):
+                    continue
                 return f"{where} raised {r['err']} for [{cfg}]"
             for name, b in (("prosit", wp), ("map", wm), ("ibaq", wi)):
                 if b and r[name] is None:
@@ -740,11 +826,13 @@ class P(Prop):
                     return why
             if wp:
                 allp = set().union(*want.values()) if want else set()
-                wantp = {p for p in allp if len(p) <= 30 and "U" not in p and "X" not in p}
+                # the Prosit input is a FILTERED listing (today: length <= 30, no U/X); which peptides the filter
+                # excludes is not C08's statement (pinned by the model comparison): only "nothing outside the rule"
+                # is judged here (audit-3 C08-4)
                 gotp = set(r["prosit"]["peptides"]) - ({""} if zero_min else set())
-                if gotp != wantp:
-                    return (f"{where}: the Prosit input lists peptides the rule does not allow {sorted(gotp - wantp)[:6]}, "
-                            f"misses {sorted(wantp - gotp)[:6]} for [{cfg}]")
+                if not gotp <= allp:
+                    return (f"{where}: the Prosit input lists peptides the rule does not allow {sorted(gotp - allp)[:6]} "
+                            f"for [{cfg}]")
                 for pep, pr in r["prosit"]["proteins"].items():
                     if pep and pep not in want.get(pr, set()):
                         return f"{where}: the Prosit input names protein {pr} for {pep}, which the rule does not cut from it [{cfg}]"
